@@ -23,6 +23,7 @@ type c07Op struct {
 	Who    int    `json:"who"`
 	Amount string `json:"amount,omitempty"`
 	Secs   int64  `json:"secs,omitempty"`
+	Split  int    `json:"split_pct,omitempty"` // roundtrip: withdraw the minted shares in two pieces, the first being this percentage
 }
 
 type c07Machine struct {
@@ -161,15 +162,28 @@ func (m *c07Machine) apply(op c07Op) error {
 			}
 			return nil
 		}
-		if err, pan := execMsg(w, m.ctx, &sstypes.MsgUnbond{Creator: l.Addr.String(), Amount: minted}); err != nil {
-			if pan {
-				return fmt.Errorf("unbond(%s) panicked: %v", minted, err)
+		pieces := []sdkmath.Int{minted}
+		if op.Split > 0 && op.Split < 100 {
+			first := minted.MulRaw(int64(op.Split)).QuoRaw(100)
+			if first.IsPositive() && first.LT(minted) {
+				pieces = []sdkmath.Int{first, minted.Sub(first)}
 			}
-			return nil // e.g. not enough cash: rejected cleanly
+		}
+		for _, piece := range pieces {
+			if err, pan := execMsg(w, m.ctx, &sstypes.MsgUnbond{Creator: l.Addr.String(), Amount: piece}); err != nil {
+				if pan {
+					return fmt.Errorf("unbond(%s) panicked: %v", piece, err)
+				}
+				return nil // e.g. not enough cash: rejected cleanly
+			}
 		}
 		back := m.usdc(l.Addr).Sub(u0).Add(amt) // what came back for the amt deposited
-		if back.GT(amt.Add(allowance(r))) {
-			return fmt.Errorf("deposit %s then immediate withdrawal of the %s minted shares returned %s (> deposit + one share's worth %s) at rate %s", amt, minted, back, allowance(r), r)
+		allow := allowance(r).MulRaw(int64(len(pieces)))
+		if back.GT(amt.Add(allow)) {
+			return fmt.Errorf("deposit %s then immediate withdrawal of the %s minted shares in %d piece(s) returned %s (> deposit + one share's worth per withdrawal %s) at rate %s", amt, minted, len(pieces), back, allow, r)
+		}
+		if len(pieces) > 1 {
+			m.Labels["roundtrip-split"] = true
 		}
 		m.Labels["roundtrip"] = true
 		if fracDigits(r) >= 6 {
@@ -181,6 +195,9 @@ func (m *c07Machine) apply(op c07Op) error {
 			return nil
 		}
 		tv, cash := m.tv(), m.cash()
+		// what is really lent out: the (only) borrower's principal plus unpaid interest, including what has
+		// accrued lazily since it was last booked
+		loans := w.App.StablestakeKeeper.GetDebt(m.ctx, m.borrower).GetTotalLiablities()
 		err := w.App.StablestakeKeeper.Borrow(m.ctx, m.borrower, sdk.NewCoin(ptypes.BaseCurrency, amt))
 		if err != nil {
 			return nil
@@ -190,6 +207,16 @@ func (m *c07Machine) apply(op c07Op) error {
 		lhs := tv.Sub(cash).Add(amt).MulRaw(10)
 		if lhs.GT(tv.MulRaw(9)) {
 			return fmt.Errorf("a borrow of %s was granted although loans %s + %s exceed 90%% of the vault value %s", amt, tv.Sub(cash), amt, tv)
+		}
+		// the same against the vault's REAL value (cash + what borrowers owe), not the stored figure. Interest
+		// accrued but not yet booked makes the real loans exceed the booked ones by L; the code's check then
+		// admits up to L/10 more, which is granted here as slack
+		slack := sdkmath.OneInt()
+		if l := loans.Sub(tv.Sub(cash)); l.IsPositive() {
+			slack = slack.Add(l.QuoRaw(10)).AddRaw(1)
+		}
+		if real := cash.Add(loans); loans.Add(amt).MulRaw(10).GT(real.MulRaw(9).Add(slack.MulRaw(10))) {
+			return fmt.Errorf("a borrow of %s was granted although what borrowers owe %s + %s exceeds 90%% of the vault's real value %s (cash %s + loans %s; stored value %s)", amt, loans, amt, real, cash, loans, tv)
 		}
 		if tv.IsPositive() && tv.Sub(cash).MulRaw(10).GTE(tv.MulRaw(8)) {
 			m.Labels["borrow-at-utilisation>=80%"] = true
@@ -347,6 +374,9 @@ func TestC07(t *testing.T) {
 				op = c07Op{Kind: "accrue", Secs: secs[UniformDraw(rt, "secs", len(secs))]}
 			default:
 				op = c07Op{Kind: "roundtrip", Who: who, Amount: amount("rt", m.tv().QuoRaw(3)).String()}
+				if UniformDraw(rt, "rt/split?", 2) == 1 {
+					op.Split = 1 + UniformDraw(rt, "rt/split", 99)
+				}
 			}
 			if verr := m.apply(op); verr != nil {
 				fail(verr)
